@@ -8,7 +8,8 @@
     2^7 option vectors.  A trace is the list of results of successive calls, each result carrying token kind, value,
     [line_num] and [_last_was_cr] after the call, or the error site with its line; it ends at the first error. *)
 From Coq Require Import List NArith ZArith Bool.
-From SV Require Import Text.Str Text.Prog Text.ProgProofs Text.Tokenizer Text.TokenizerProofs.
+From SV Require Import Text.Str Text.Prog Text.ProgProofs Text.Tokenizer Text.TokenizerProofs Text.KvErrModel Text.KvErrProofs
+  Text.BaseTok Text.BaseTokProofs Text.BaseTokTokenizer Text.BaseTokHelpers.
 Import ListNotations.
 
 (** Generic: NO reader program can tell a chunked source from the flat string it denotes — same result, and the
@@ -40,7 +41,7 @@ Theorem c03_get_token_total : forall T o, ops_no_eof T = true ->
   let r := run_flat (get_token T o f line lcr) l in
   fst r <> RFuel
   /\ (forall v ln b, fst r = RTok EOF v ln b -> snd r = [] /\ v = [] /\ True)
-  /\ (reads (get_token T o f line lcr) l + 2 * length (snd r) <= 2 * length l + 1)%nat.
+  /\ (Prog.reads (get_token T o f line lcr) l + 2 * length (snd r) <= 2 * length l + 1)%nat.
 Proof.
   intros T o H f l line lcr Hf. destruct (get_token_total T o H f l line lcr Hf) as [[H1 H2] H3].
   cbv zeta. repeat split; try assumption; apply (H2 v ln b H0).
@@ -72,7 +73,7 @@ Theorem c03_trace_reads_linear : forall T o, ops_no_eof T = true ->
   forall n fuel line lcr l, (length l < fuel)%nat -> (trace_reads T o n fuel line lcr l <= 2 * length l + n)%nat.
 Proof. exact trace_reads_linear. Qed.
 
-Theorem c03_reads_chunk_independent : forall (A : Type) (p : Prog A) l s, R l s -> reads_chk p s = reads p l.
+Theorem c03_reads_chunk_independent : forall (A : Type) (p : Prog A) l s, R l s -> reads_chk p s = Prog.reads p l.
 Proof. exact @reads_chunk_independent. Qed.
 
 (** Non-vacuity: a concrete run (star comment cut inside "*/", CR-LF cut in the middle, an empty chunk). *)
@@ -88,4 +89,123 @@ Theorem c03_example :
   tokens_chk ex_tables ex_opts 5 20 1 false (chk_of_chunks [[97;13]; []; [10;47;42;120;42]; [47;98]]%N)
   = [RTok STRING [97]%N 1 false; RTok NEWLINE [10]%N 2 true; RTok COMMENT [120]%N 2 false; RTok STRING [98]%N 2 false;
      RTok EOF [] 2 false].
+Proof. vm_compute. split; reflexivity. Qed.
+
+(** ---- "KeyValError and nothing else" for [Keyvalues.parse] (exception-level model Text/KvErrModel.v) ----
+    [cfg] records how the source guards each indexing site of the parser (regenerated from keyvalues.py on every run;
+    the check discharges [cfg_safe gen_kcfg = true] field by field).  For EVERY token stream the parser can see through
+    its tokenizer, every caller-supplied flag mapping, every option vector and whatever error the tokenizer ends with:
+    the parser returns, or raises KeyValError — never an exception of another type. *)
+Theorem c03_kvparse_only_keyvalerror : forall cfg ko cf flags defaults fin,
+  cfg_safe cfg = true -> forall ts s, parse_tokens cfg ko cf flags defaults fin ts <> OForeign s.
+Proof. exact no_foreign. Qed.
+
+(** Site by site: a foreign exception starting at site [s] needs the guard of exactly that site to be missing (and the
+    unguarded [cur_block_contents[-1]] of the "block expected" branch is never reached with an empty list). *)
+Theorem c03_kvparse_foreign_needs_missing_guard : forall cfg ko cf flags defaults fin ts s,
+  parse_tokens cfg ko cf flags defaults fin ts = OForeign s -> site_guard cfg s = false.
+Proof. exact foreign_needs_missing_guard. Qed.
+
+(** Composition with the tokenizer model: [Keyvalues.parse(text)] for any text: the tokenizer part does not run out
+    of fuel and ends in EOF or one of its error values (raised with error_type = KeyValError); the parser part never
+    leaves with a foreign exception. *)
+Theorem c03_kvparse_text_typed : forall T cfg ko ae flags defaults, cfg_safe cfg = true -> ops_no_eof T = true ->
+  forall text,
+  let tr := split_trace (tokens_flat T (kv_tok_opts ae) (S (length text)) (S (length text)) 1 false text) in
+  snd tr <> Some RFuel /\ forall s, kv_parse_text T cfg ko ae flags defaults text <> OForeign s.
+Proof. exact kv_parse_text_typed. Qed.
+
+(** ... and the outcome (ok / which KeyValError, including the tokenizer error and its line when that ends the stream)
+    is the same whether the text is passed as one string or as any sequence of chunks. *)
+Theorem c03_kvparse_any_chunking : forall T cfg ko ae flags defaults cs,
+  kv_parse_chunks T cfg ko ae flags defaults cs = kv_parse_text T cfg ko ae flags defaults (concat cs).
+Proof. exact kv_parse_any_chunking. Qed.
+
+(** The guards are not decoration (these are the shapes the pinned tree had before the fixes, and seeded fault c03_2):
+    an empty flag with an index test, a flagged keyvalue after a skipped block, a skipped block in single-block mode. *)
+Definition all_guarded : kcfg := {| bang_total := true; guard_replace_block := true; guard_replace_leaf := true;
+  guard_single_root := true; close_guarded := true |}.
+Definition ko_default : kopts := {| newline_keys := false; newline_values := true; single_line := false; single_block := false |}.
+Theorem c03_kvparse_unguarded_refuted :
+  let S_ := (STRING, [97]%N) in let NL_ := (NEWLINE, [10]%N) in
+  let run c k ts := parse_tokens c k (fun x => [x]) [] [] None ts in
+  run {| bang_total := false; guard_replace_block := true; guard_replace_leaf := true; guard_single_root := true; close_guarded := true |}
+      ko_default [S_; S_; (PROP_FLAG, []); NL_] = OForeign F_BANG
+  /\ run {| bang_total := true; guard_replace_block := true; guard_replace_leaf := false; guard_single_root := true; close_guarded := true |}
+      ko_default [S_; (PROP_FLAG, [120]%N); NL_; (BRACE_OPEN, []); (BRACE_CLOSE, []); S_; S_; (PROP_FLAG, [33; 120]%N); NL_] = OForeign F_REPLACE_LEAF
+  /\ run {| bang_total := true; guard_replace_block := true; guard_replace_leaf := true; guard_single_root := false; close_guarded := true |}
+      {| newline_keys := false; newline_values := true; single_line := false; single_block := true |}
+      [S_; (PROP_FLAG, [120]%N); NL_; (BRACE_OPEN, []); (BRACE_CLOSE, [])] = OForeign F_ROOT0
+  /\ run all_guarded ko_default [S_; (PROP_FLAG, [120]%N); NL_; (BRACE_OPEN, []); (BRACE_CLOSE, []); S_; S_; (PROP_FLAG, [33; 120]%N); NL_] = OOk
+  /\ cfg_safe all_guarded = true.
+Proof. vm_compute. repeat split; reflexivity. Qed.
+
+(** ---- The token-level layer [BaseTokenizer] (Text/BaseTok.v): [__call__] with the push-back list, [peek],
+    [push_back]; generic over the underlying source [get] (= [_get_token] of Tokenizer or IterTokenizer).  [c] says which
+    end of [_pushback] each method uses (regenerated from the source; obligation [lifo gen_bcfg = true]). ---- *)
+
+(** Every sequence of calls, peeks and push-backs returns what the same sequence returns on the logical stream
+    "pushed-back tokens, last pushed first, then the stream [_get_token] delivers" ([view]); [n] only bounds how much
+    of that stream is looked at. *)
+Theorem c03_basetok_refines_logical_stream : forall (S E : Type) (get : S -> (ptok + E) * S) c, lifo c = true ->
+  forall ops b n, (BaseTok.reads ops <= n)%nat -> fst (run S E get c ops b) = srun E ops (view S E get c n b).
+Proof. exact run_refines. Qed.
+
+(** Delivery = underlying stream: with nothing pushed back explicitly, whatever mixture of calls and peeks is made,
+    the tokens the calls return are the first tokens of [_get_token]'s stream, in order, none lost or repeated. *)
+Theorem c03_basetok_delivery_is_underlying_stream : forall (S E : Type) (get : S -> (ptok + E) * S) c, lifo c = true ->
+  forall ops b, pb b = [] -> Forall (fun o => match o with Push _ => False | _ => True end) ops ->
+  exists k, map snd (filter fst (fst (run S E get c ops b))) = firstn k (unfold S E get (BaseTok.reads ops) (src b)).
+Proof. exact delivery_is_underlying_stream. Qed.
+
+(** LIFO, one level: push_back then call returns the token and restores the state; peek shows what the next call
+    returns; a re-delivered token does not touch the source (so [line_num] stays where the furthest read left it). *)
+Theorem c03_basetok_call_after_push_back : forall (S E : Type) (get : S -> (ptok + E) * S) c, lifo c = true ->
+  forall x b, call S E get c (push S c x b) = (inl x, b).
+Proof. exact call_push. Qed.
+Theorem c03_basetok_peek_then_call : forall (S E : Type) (get : S -> (ptok + E) * S) c, lifo c = true ->
+  forall b x b1, call S E get c b = (inl x, b1) ->
+  fst (peek S E get c b) = inl x /\ call S E get c (snd (peek S E get c b)) = (inl x, b1).
+Proof. exact peek_then_call. Qed.
+Theorem c03_basetok_redelivery_keeps_source : forall (S E : Type) (get : S -> (ptok + E) * S) c b x l,
+  pb_pop (pop_last c) (pb b) = Some (x, l) -> call S E get c b = (inl x, {| pb := l; src := src b |}).
+Proof. exact redelivery_keeps_source. Qed.
+
+(** Chunk independence through the layer: over [Tokenizer] as the source, any sequence of calls / peeks / push-backs,
+    and [expect], give the same tokens, values and errors and leave the same push-back list, [line_num] and
+    [_last_was_cr], whether the text is one string or any sequence of chunks ([R l s]). *)
+Theorem c03_basetok_ops_chunk_independent : forall T o fuel c ops pbl line lcr l s, R l s ->
+  fst (run _ _ (tk_get_flat T o fuel) c ops {| pb := pbl; src := (line, lcr, l) |})
+  = fst (run _ _ (tk_get_chk T o fuel) c ops {| pb := pbl; src := (line, lcr, s) |})
+  /\ Rb _ _ Rtk (snd (run _ _ (tk_get_flat T o fuel) c ops {| pb := pbl; src := (line, lcr, l) |}))
+                (snd (run _ _ (tk_get_chk T o fuel) c ops {| pb := pbl; src := (line, lcr, s) |})).
+Proof. exact bt_ops_chunk_independent. Qed.
+Theorem c03_basetok_expect_chunk_independent : forall T o fuel c f want skip pbl line lcr l s, R l s ->
+  fst (expect _ _ (tk_get_flat T o fuel) c f want skip {| pb := pbl; src := (line, lcr, l) |})
+  = fst (expect _ _ (tk_get_chk T o fuel) c f want skip {| pb := pbl; src := (line, lcr, s) |}).
+Proof. exact bt_expect_chunk_independent. Qed.
+
+(** [expect(token)] on the logical stream: the NEWLINE tokens in front are skipped (NEWLINE itself not being wanted),
+    the first other token [x] decides: its value is returned if it is the wanted kind, otherwise the error names [x] —
+    whether those tokens come from the push-back list or from the source. *)
+Theorem c03_basetok_expect_spec : forall (S E : Type) (get : S -> (ptok + E) * S) c nls fuel want b n x rest,
+  Forall (fun t => is_tok NEWLINE t = true) nls -> is_tok NEWLINE x = false ->
+  is_tok NEWLINE (want, []) = false -> (length nls < fuel)%nat ->
+  view S E get c n b = map inl nls ++ inl x :: rest ->
+  fst (expect S E get c fuel want true b) = if is_tok want x then HVal (snd x) else HErr x.
+Proof. exact expect_spec. Qed.
+
+(** [IterTokenizer]: delivers the wrapped items, then (EOF, '') for ever. *)
+Theorem c03_itertokenizer_stream : forall l n, (length l <= n)%nat ->
+  unfold (list ptok) Empty_set iter_get n l = map inl l ++ repeat (inl (EOF, [])) (n - length l).
+Proof. exact iter_delivers_the_list. Qed.
+
+(** The LIFO condition is not decoration: popping the other end (FIFO) re-delivers two pushed-back tokens in the
+    wrong order. *)
+Theorem c03_basetok_fifo_refuted :
+  let c := {| pop_last := false; push_last := true; peek_last := true |} in
+  let b := {| pb := []; src := ([] : list ptok) |} in
+  lifo c = false /\
+  fst (run _ _ iter_get c [Push (STRING, [97]%N); Push (STRING, [98]%N); Call; Call] b)
+  = [(true, inl (STRING, [97]%N)); (true, inl (STRING, [98]%N))].
 Proof. vm_compute. split; reflexivity. Qed.
